@@ -567,7 +567,8 @@ def parent_main(prop, tier, seed, nshards=NSHARDS_DEFAULT, only=None, budget_s=N
         "violations": len(violations),
     }
     try:
-        validate_evidence(ev)
+        if not only:
+            validate_evidence(ev)
     except Exception as e:  # noqa
         harness_errors.append("evidence does not validate: %s" % str(e)[:500])
     if not only and os.path.realpath(REPO) == os.path.realpath("/repo"):
